@@ -297,6 +297,18 @@ theorem signHash_ok {st : St} (h : VisOk st) (w : String) (b i : Nat) (p : Pass)
     · exact fail_ok (st := { st with wal := clearAll st.wal }) h _
     · exact h
 
+theorem ksSign_ok {st : St} (h : VisOk st) (w : String) (b i : Nat) (p : Pass) : VisOk (ksSign st w b i p).1 := by
+  unfold ksSign
+  split
+  · exact h
+  · split
+    · split
+      · exact fail_ok (setAM_ok h _ _ _) _
+      · exact fail_ok h _
+    · exact setAM_ok h _ _ _
+
+theorem ksClear_ok {st : St} (h : VisOk st) : VisOk (ksClear st).1 := h
+
 theorem restart_ok {st : St} (h : VisOk st) (p : Pass) : VisOk (restart st p).1 := by
   unfold restart
   dsimp only
@@ -318,6 +330,8 @@ theorem step_ok {st : St} (h : VisOk st) (op : Op) : VisOk (step st op).1 := by
   | chpub o n => exact chpub_ok h o n
   | chpriv w o n => exact chpriv_ok h w o n
   | signHash w b i p => exact signHash_ok h w b i p
+  | ksSign w b i p => exact ksSign_ok h w b i p
+  | ksClear => exact ksClear_ok h
   | restart p => exact restart_ok h p
 
 theorem run_ok (ops : List Op) : ∀ {st : St}, VisOk st → VisOk (run st ops) := by
